@@ -124,28 +124,45 @@ def end_pairing(repo: Repo) -> RuleRun:
         r.require(m is not None, f"OnCurveEdge.{prop} vanished")
         uses = {n.attr for n in ast.walk(m.node) if isinstance(n, ast.Attribute) and n.attr in ("vertex_1", "vertex_2")}
         r.check(uses == {vertex} and "get_closest_param" in ast.unparse(m.node), m, f"{prop} from {vertex}", f"OnCurveEdge.{prop} is derived from {sorted(uses)}; it must be the curve parameter closest to {vertex}", m.node, key=prop)
-    # abstract run of point_array / length with recorded argument order
-    for qn in ("items.edges.curve.OnCurveEdge.point_array", "items.edges.curve.OnCurveEdge.length", "items.edges.curve.SplineEdge.point_array"):
+    # abstract run of point_array / length down to the curve itself (the edge-data layer OnCurve/Spline is evaluated, not
+    # stubbed), with ascending and descending parameters: the curve must be traversed from vertex_1 to vertex_2
+    for qn, data_cls in (
+        ("items.edges.curve.OnCurveEdge.point_array", "construct.edges.OnCurve"),
+        ("items.edges.curve.OnCurveEdge.length", "construct.edges.OnCurve"),
+        ("items.edges.curve.SplineEdge.point_array", "construct.edges.Spline"),
+    ):
         fn = repo.func(qn)
-        rec = []
+        for ps_v, pe_v in ((2, 7), (7, 2)):
+            rec = []
+            curve = Obj("curve")
 
-        def hook(ev, call: ast.Call, nm, rec=rec):
-            if isinstance(call.func, ast.Attribute) and call.func.attr in ("discretize", "get_length"):
-                rec.append((call.func.attr, [ev.eval(a) for a in call.args]))
-                return [Sym("first"), Sym("inner1"), Sym("inner2"), Sym("last")] if call.func.attr == "discretize" else Sym("len")
-            return NO_MATCH
+            def hook(ev, call: ast.Call, nm, rec=rec, curve=curve):
+                if isinstance(call.func, ast.Attribute) and call.func.attr in ("discretize", "get_length"):
+                    if ev.eval(call.func.value) is curve:
+                        rec.append((call.func.attr, [ev.eval(a) for a in call.args]))
+                        return [Sym("first"), Sym("inner1"), Sym("inner2"), Sym("last")] if call.func.attr == "discretize" else Sym("len")
+                return NO_MATCH
 
-        this = Obj("edge", cls=fn.cls)
-        this.set("param_start", Sym("PS"))
-        this.set("param_end", Sym("PE"))
-        data = Obj("data")
-        data.set("curve", Obj("curve"))
-        this.set("data", data)
-        res = _run(Evaluator(repo=repo, module=fn.module, call_hook=hook), fn, [this])
-        ok = len(rec) == 1 and [repr(a) for a in rec[0][1][:2]] == ["PS", "PE"]
-        r.check(ok, fn, f"{rec[0][0] if rec else '?'}(param_start, param_end)", f"{fn.qualname} calls {rec}; the curve must be traversed from param_start (vertex_1) to param_end (vertex_2)", fn.node, key=f"{fn.cls.name}.{fn.name}:order")
-        if fn.name == "point_array" and fn.cls is oce:
-            r.check([repr(x) for x in res] == ["inner1", "inner2"] if isinstance(res, list) else False, fn, "end points (the vertices themselves) dropped, inner points kept", f"OnCurveEdge.point_array returns {res}: the written point list must be the inner points between the two vertices", fn.node, key="OnCurveEdge.point_array:slice")
+            this = Obj("edge", cls=fn.cls)
+            this.set("param_start", ps_v)
+            this.set("param_end", pe_v)
+            data = Obj("data", cls=repo.cls(data_cls))
+            data.set("curve", curve)
+            data.set("n_points", 2)
+            this.set("data", data)
+            res = _run(Evaluator(repo=repo, module=fn.module, call_hook=hook), fn, [this])
+            ok = len(rec) == 1 and list(rec[0][1][:2]) == [ps_v, pe_v]
+            r.check(
+                ok,
+                fn,
+                f"{rec[0][0] if rec else '?'}({ps_v}, {pe_v}) reaches the curve in that order",
+                f"{fn.qualname} with param_start={ps_v} (vertex_1) and param_end={pe_v} (vertex_2) asks the curve for {rec}; the curve must be traversed from param_start to "
+                "param_end, also when the curve is parametrised against the edge (otherwise the points are written from vertex_2 to vertex_1)",
+                fn.node,
+                key=f"{fn.cls.name}.{fn.name}:order:{'asc' if ps_v < pe_v else 'desc'}",
+            )
+            if fn.name == "point_array" and fn.cls is oce and ps_v < pe_v:
+                r.check([repr(x) for x in res] == ["inner1", "inner2"] if isinstance(res, list) else False, fn, "end points (the vertices themselves) dropped, inner points kept", f"OnCurveEdge.point_array returns {res}: the written point list must be the inner points between the two vertices", fn.node, key="OnCurveEdge.point_array:slice")
     # CurveEdgeBase default params cover all data points
     ceb = repo.cls("items.edges.curve.CurveEdgeBase")
     this = Obj("edge", cls=ceb)
